@@ -203,18 +203,26 @@ func (r *runner) startInc() bool {
 	host := &xh.Host{ID: sid, Ext: &xh.Ext{S: r.store}}
 	done := make(chan error, 1)
 	go func() { done <- exp.Start(context.Background(), host) }()
-	select {
-	case err := <-done:
-		if err != nil {
-			r.rec.add(Event{Ev: "note", Text: "Start: " + err.Error()})
+	deadline := time.Now().Add(5 * time.Second)
+	for {
+		select {
+		case err := <-done:
+			if err != nil {
+				r.rec.add(Event{Ev: "note", Text: "Start: " + err.Error()})
+			}
+			return true
+		case <-time.After(time.Millisecond):
 		}
-	case <-time.After(5 * time.Second):
-		// recovery that never finishes (e.g. blocked on a full queue before any consumer exists)
-		r.rec.add(Event{Ev: "start_timeout", Inc: r.inc})
-		r.store.Kill()
-		return false
+		if r.store.Dead() {
+			return false // died during recovery: Start never returns in a dead process
+		}
+		if time.Now().After(deadline) {
+			// recovery that never finishes (e.g. blocked on a full queue before any consumer exists)
+			r.rec.add(Event{Ev: "start_timeout", Inc: r.inc})
+			r.store.Kill()
+			return false
+		}
 	}
-	return true
 }
 
 // abandon stops the goroutines of a dead (or finished) incarnation; nothing it does is recorded.
@@ -229,15 +237,11 @@ func (r *runner) abandon() {
 	}
 	r.mu.Unlock()
 	if r.exp != nil {
+		// the goroutines of a dead incarnation are parked inside their storage calls (possibly holding the queue
+		// mutex): nothing to wait for.  Shutdown is still requested so that whatever can exit does.
 		exp := r.exp
-		d := r.shutCh // Shutdown already requested by the script: only wait for it
-		if d == nil {
-			d = make(chan struct{})
-			go func(d chan struct{}) { _ = exp.Shutdown(context.Background()); close(d) }(d)
-		}
-		select {
-		case <-d:
-		case <-time.After(5 * time.Second):
+		if r.shutCh == nil {
+			go func() { _ = exp.Shutdown(context.Background()) }()
 		}
 		r.exp = nil
 		r.shutCh = nil
@@ -278,6 +282,7 @@ func (r *runner) drain() bool {
 	r.mu.Unlock()
 	deadline := time.Now().Add(20 * time.Second)
 	lastCalls, lastChange := -1, time.Now()
+	lastPushed, callsAtPush, livelock := -1, 0, false
 	for time.Now().Before(deadline) && !r.store.Dead() {
 		if r.quiescent() {
 			time.Sleep(20 * time.Millisecond)
@@ -289,6 +294,18 @@ func (r *runner) drain() bool {
 			lastCalls, lastChange = c, time.Now()
 		} else if time.Since(lastChange) > 2*time.Second {
 			break // idle fallback when the storage layout is not the expected one
+		}
+		r.mu.Lock()
+		np := len(r.pushedInDrain)
+		r.mu.Unlock()
+		if np != lastPushed {
+			lastPushed, callsAtPush = np, r.store.Calls()
+		} else if r.store.Calls()-callsAtPush > 50000 {
+			// tens of thousands of storage calls without a single hand-off: the queue spins (e.g. read index past
+			// the write index).  Whatever is still owed will never be handed over by this incarnation.
+			r.rec.add(Event{Ev: "note", Text: "drain livelock: storage calls without hand-off"})
+			livelock = true
+			break
 		}
 		time.Sleep(2 * time.Millisecond)
 	}
@@ -315,11 +332,15 @@ func (r *runner) drain() bool {
 	}
 	sn := r.store.Snapshot()
 	r.rec.add(Event{Ev: "drain_end", Inc: r.inc, Pushed: pushed, After: &sn})
+	if livelock {
+		r.store.Kill2Quiet() // parks the spinning goroutine inside its next storage call
+	}
 	return true
 }
 
 func runScript(sc Script) []Event {
 	r := &runner{sc: sc, rec: &recorder{}, store: xh.NewStore(), gates: map[string]*gate{}, pushedInDrain: map[string]bool{}}
+	r.store.BlockDead = true
 	r.store.OnCall = func(c xh.CallRec) {
 		a := c.After
 		r.rec.add(Event{Ev: "store", Inc: c.Inc, N: c.N, Ops: c.Ops, After: &a})
@@ -350,14 +371,25 @@ func runScript(sc Script) []Event {
 			res := make(chan error, 1)
 			exp := r.exp
 			go func() { res <- exp.ConsumeLogs(context.Background(), xh.MakeLogs(st.Req, 1)) }()
-			select {
-			case err := <-res:
-				if !r.store.Dead() {
-					ok := err == nil
-					r.rec.add(Event{Ev: "offer_end", Req: st.Req, OK: &ok, Inc: r.inc})
+			deadline := time.Now().Add(5 * time.Second)
+		waitOffer:
+			for {
+				select {
+				case err := <-res:
+					if !r.store.Dead() {
+						ok := err == nil
+						r.rec.add(Event{Ev: "offer_end", Req: st.Req, OK: &ok, Inc: r.inc})
+					}
+					break waitOffer
+				case <-time.After(time.Millisecond):
 				}
-			case <-time.After(5 * time.Second):
-				r.rec.add(Event{Ev: "note", Text: "offer blocked: " + st.Req})
+				if r.store.Dead() {
+					break
+				}
+				if time.Now().After(deadline) {
+					r.rec.add(Event{Ev: "note", Text: "offer blocked: " + st.Req})
+					break
+				}
 			}
 		case "await":
 			g := r.gateFor(r.inc, st.Req)
